@@ -4,6 +4,7 @@ import subprocess, sys
 f, old, new = sys.argv[1:4]
 ids = sys.argv[5:]
 p = "/repo/" + f
+assert not subprocess.run(["git", "-C", "/repo", "status", "--porcelain", "--untracked-files=no"], capture_output=True, text=True).stdout.strip(), "commit or stash /repo changes first"
 s = open(p).read()
 assert s.count(old) >= 1, "pattern not found"
 open(p, "w").write(s.replace(old, new, 1))
